@@ -4,6 +4,7 @@ CONSTANTS
   Calls <- I2
   FixIdle = TRUE
   FixStop = TRUE
+  FixOrder = TRUE
   FixWake = FALSE
   CallTimeouts = TRUE
 INVARIANTS NoSleepingCall
